@@ -226,7 +226,29 @@ async fn run_async(ctx: &mut Ctx, enumerate: bool) {
                         _ => {}
                     }
                 }
-                w.route(ctx, wi);
+                // exploration: the network holds a genuine handshake back until around (often past) the expiry of
+                // the challenge it answers, while further undecryptable packets in the sender's name keep
+                // arriving at the challenger (each makes the application answer another who-are-you query)
+                let mut held = false;
+                if !enumerate {
+                    if let (Some(d), Some(to)) = (&rec.dec, w.node_by_addr(&rec.dst)) {
+                        let first_tx = !w.wire[..wi].iter().any(|r| r.from == from && r.bytes == rec.bytes);
+                        if matches!(d.kind, PacketKind::Handshake { .. }) && first_tx && ctx.tape.choose(4) == 0 {
+                            let tmo = w.nodes[to].cfg.request_timeout_ms;
+                            let delay = tmo - 300 + ctx.tape.choose(1500) as u64;
+                            ctx.fault("handshake_held_back");
+                            ctx.ev(format!("t={} n{from}->n{to} HANDSHAKE held back for {delay}ms", now_ms()));
+                            w.schedule(delay, Ev::Deliver { to, src: rec.src, bytes: rec.bytes.clone(), origin: Origin::Mutated { wire: wi, how: "held-back" } });
+                            for _ in 0..ctx.tape.choose(4) {
+                                w.schedule(1 + ctx.tape.choose(delay as u32 - 1) as u64, Ev::Custom(X::SessionLoss { at: to, claimed_peer: from }));
+                            }
+                            held = true;
+                        }
+                    }
+                }
+                if !held {
+                    w.route(ctx, wi);
+                }
                 // count-based replay points
                 let emitted = w.wire.len();
                 for s in specs.iter().filter(|s| s.point < 100 && s.point == emitted) {
